@@ -20,8 +20,38 @@ pub mod c19;
 #[cfg(not(miri))]
 pub mod c20;
 
+/// positive controls for the sanitizer passes: a deliberate 1-byte access just past a frame, just before it, and
+/// after freeing it, through the same allocation path the arena uses. The tool under which this runs must report it.
+fn sanitizer_control(a: &Args, rep: &mut Report) {
+    use std::alloc::{alloc, dealloc, Layout};
+    let l = Layout::from_size_align(4096, 4096).unwrap();
+    let kind = a.get("kind").unwrap_or("over").to_string();
+    rep.eval();
+    rep.class(&format!("control|{}", kind));
+    rep.class("control|ran");
+    unsafe {
+        let p = alloc(l);
+        core::ptr::write_bytes(p, 0x5a, 4096);
+        let v = match kind.as_str() {
+            "over" => core::ptr::read_volatile(p.add(4096)),
+            "under" => core::ptr::read_volatile(p.sub(1)),
+            _ => {
+                dealloc(p, l);
+                core::ptr::read_volatile(p.add(8))
+            }
+        };
+        rep.count("control_value", v as u64);
+        if kind != "uaf" {
+            dealloc(p, l);
+        }
+    }
+    // reaching this point means the tool did not stop the process
+    rep.notes.push(format!("control '{}' was NOT stopped by the tool", kind));
+}
+
 pub fn run(a: &Args, rep: &mut Report) -> bool {
     match a.prop.to_lowercase().as_str() {
+        "sanctl" => sanitizer_control(a, rep),
         "c03" => c03::run(a, rep),
         "c04" => c04::run(a, rep),
         "c05" => c05::run(a, rep),
